@@ -62,6 +62,11 @@ import SwcVerif.Props.C16Tree2
 #print axioms C16Tree2.good_tree
 #print axioms C16Tree2.generated_smooth_tree
 #print axioms C16Tree2.generated_smooth_tree_endpoints
+#print axioms RefineAsm.rep_exists
+#print axioms C16Tree.rep_of_ranked
+#print axioms C16Tree2.branch_pre_lt
+#print axioms C16Tree.branchTree_ranked
+#print axioms C16Tree.generated_resample_tree_wf
 #print axioms C16.pairArgmin_spec
 #print axioms C16.pair_step_inv
 #print axioms C16.pair_exact
